@@ -30,11 +30,17 @@ FLOOR_PRIM_RUNS = 150
 FLOOR_CONFIGS = 1000
 
 
-def run(rep: Report) -> None:
+def run(rep: Report, only_prims=None, only_cfg=None) -> None:
+    """only_prims / only_cfg: predicates restricting the primitives / configurations (used by
+    the checks of other properties that need the same comparison on a subset)"""
     rep.trusted += TRUSTED_WIRE
+    sub = only_prims is not None or only_cfg is not None
     # ---------------------------------------------------------- (a) primitives
     runs = PC.all_runs(rep.prog, rep.tier)
-    rep.floor("primitive x configuration x engine runs", len(runs), FLOOR_PRIM_RUNS)
+    if only_prims is not None:
+        runs = [r for r in runs if only_prims(r.prim)]
+    if not sub:
+        rep.floor("primitive x configuration x engine runs", len(runs), FLOOR_PRIM_RUNS)
     nz = PC.prim_normalizer(False)
     for r in runs:
         inst = f"{r.impl} {r.prim} [{r.config}]{' N=1' if r.n1 else ''}"
@@ -53,7 +59,10 @@ def run(rep: Report) -> None:
         )
     # ------------------------------------------------------------- (b) wiring
     cks = wire_results(rep, "base") + wire_results(rep, "flags", impls=("casadi", "numpy"))
-    rep.floor("local-topology configurations", len(cks), FLOOR_CONFIGS)
+    if only_cfg is not None:
+        cks = [ck for ck in cks if only_cfg(ck.cfg)]
+    if not sub:
+        rep.floor("local-topology configurations", len(cks), FLOOR_CONFIGS)
     if not require_no_errors(rep, cks):
         return
     npaths = 0
@@ -83,6 +92,8 @@ def run(rep: Report) -> None:
             )
         else:
             rep.holds("W-step", cfg.label(), "Network.step")
+    if sub:
+        return
     rep.analysed["configurations"] = len(cks)
     rep.analysed["symbolic_paths"] = npaths
     require_fresh_lookups(rep)
